@@ -49,6 +49,9 @@ def replay_history(case) -> List[Tuple[str, str]]:
     try:
         snapdir = os.path.join(work, "snaps")
         ns_cfg = list(consts["Namespaces"])
+        # the configured list as the file spells it: in every other case a namespace that never held an entry leads the
+        # list and one namespace is listed twice (both legal; neither may keep a later namespace from being emptied)
+        ns_listed = (["x:never"] + ns_cfg + ns_cfg[:1]) if (case.get("flip", 0) + len(h)) % 2 == 0 else ns_cfg
         base = {"t4": {"snapshot_dir": snapdir, "snapshot_every_n_turns": consts["Cadence"],
                        "cache_bust_mode": "on-apply" if consts["Bust"] else "none",
                        "cache": {"enabled": True, "namespaces": ns_cfg, "max_entries": 64, "ttl_sec": 600}}}
@@ -57,6 +60,10 @@ def replay_history(case) -> List[Tuple[str, str]]:
         # run_turn creates one), so busting applies to it under either value: toggled between turns
         cfg_on_nocache = E.validated_cfg(E.deep_merge(base, {"t4": {"cache": {"enabled": False}}}))
         cfg_off = E.validated_cfg(E.deep_merge(base, {"t4": {"enabled": False}}))
+        # (the validator only admits the namespace names it knows; the longer list is set on the normalised configuration,
+        # as a raw configuration would deliver it)
+        for c_ in (cfg_on, cfg_on_nocache, cfg_off):
+            c_["t4"]["cache"]["namespaces"] = list(ns_listed)
         # every third case uses a store with the optional hooks: falsy while empty (__len__) and export_state(), which
         # raises in every sixth case (a store error inside the snapshot writer must not abort the turn either)
         sk = case.get("storekind", 0)
@@ -77,7 +84,11 @@ def replay_history(case) -> List[Tuple[str, str]]:
             store.report = step.get("report", "counts")
             # one live entry per known namespace before the apply
             for ns in consts["AllNamespaces"]:
-                cm.invalidate_namespace(ns)
+                try:
+                    cm.invalidate_namespace(ns)
+                except Exception as e:      # the manager's own API: emptying a namespace that holds nothing is a no-op
+                    fails.append(("BustWhenConfigured", f"turn {turn}: CacheManager.invalidate_namespace({ns!r}) raised {type(e).__name__}: {e} on a namespace without entries"))
+                    return fails
                 cm.set(ns, ("k", turn), "v")
             snap_before = _snap_listing(snapdir)
             cfg = cfg_off if step["kill"] else (cfg_on if (turn + len(ids) + case.get("flip", 0)) % 2 == 0 else cfg_on_nocache)
